@@ -77,7 +77,7 @@ func init() {
 				g.Capped = &cappedC11
 				// ordinary generated amounts (up to 10^24 base units) reach the same overflow
 				// domain once a price is applied: keep them below it as well
-				g.ClampBits = 50
+				g.ClampBits = 40
 			}
 		},
 		Known: func(m *Machine, v *Violation) string {
@@ -211,3 +211,47 @@ func rawCallHasBigWord(dataHex string) bool {
 	}
 	return false
 }
+
+// the same oracle over histories with downtime: validators missing from the last commit until
+// x/slashing (short window) slashes and jails them through the staking interface, interleaved
+// with everything else
+func init() {
+	base := *worldProps["C11"]
+	base.Name = "C11Down"
+	base.Gen = GenOpts{HostilePct: 12, ExtremePct: 2, MaxDt: 40, Tempos: []int{3, 10, 30}, DowntimePct: 40, Anchor: true,
+		Weights: map[string]int{
+			"nextBlock": 44, "depositLST": 5, "delegate": 8, "undelegate": 7, "associate": 2, "optIn": 4, "optOut": 3, "setKey": 4,
+			"slash": 2, "evidence": 2, "unjail": 3, "jail": 1, "nativeDelegate": 2, "nativeUndelegate": 2, "payFee": 2, "depositNST": 1, "nstUpdate": 1,
+		}}
+	base.Config = func(t *rapid.T) sim.Config {
+		cfg := worldConfig(t)
+		cfg.Slashing = &sim.SlashingCfg{
+			Window:           int64(2 + uniform(t, 7, "window")),
+			MinSigned:        []string{"0.5", "0.05", "1", "0.75"}[uniform(t, 4, "minSigned")],
+			JailSeconds:      int64([]int{1, 10, 60, 600}[uniform(t, 4, "jail")]),
+			FractionDowntime: []string{"0", "0.01", "0.5", "1"}[uniform(t, 4, "fraction")],
+		}
+		return cfg
+	}
+	base.MinSteps, base.MaxSteps = 30, 90
+	base.NonTrivial = func(m *Machine, invs []Invariant) (bool, []string) {
+		down := 0
+		for _, a := range m.Log {
+			if a.Kind == "nextBlock" && len(a.Absent) > 0 {
+				down++
+			}
+		}
+		jailed := 0
+		for _, k := range m.Keys {
+			if m.C.App.OperatorKeeper.IsOperatorJailedForChainID(m.C.Ctx(), k.ConsAddr(), m.chainIDNoRev()) {
+				jailed++
+			}
+		}
+		m.Labels["blocks-with-absent-validators"] += down
+		m.Labels["operators-jailed-at-the-end"] += jailed
+		return down >= 3 && jailed > 0, nil
+	}
+	registerWorldProp(&base)
+}
+
+func TestC11Down(t *testing.T) { runWorldProp(t, "C11Down") }
